@@ -31,7 +31,7 @@ fn kind_name(k: u8) -> &'static str {
     }
 }
 
-const POSITIONS: [(i32, i32); 4] = [(0, 0), (32, 25), (-5, 200), (3, 7)];
+const POSITIONS: [(i32, i32); 4] = [(0, 0), (32, 25), (-300, 200), (3, 7)];
 const SCROLLS: [f32; 4] = [0.0, 100.0, -100.0, 37.5];
 const SIZES: [(u32, u32, u32); 3] = [(64, 64, 64), (100, 50, 30), (33, 77, 20)];
 
@@ -291,7 +291,30 @@ impl<C: Cv> Model for CanvasModel<C> {
     type Action = Act;
 
     fn init_states(&self) -> Vec<St<C>> {
-        vec![St { canvas: C::new(0), size: 0, drag: None, fail: None, depth: 0 }]
+        // the default canvas, and canvases that already have a history: zoomed
+        // about a point and panned, and (3D) rotated - most view states are not
+        // reachable from the default within the depth bound
+        let mut v = vec![St { canvas: C::new(0), size: 0, drag: None, fail: None, depth: 0 }];
+        let mut c = C::new(0);
+        let _ = c.zoom(SCROLLS[3], Some(1));
+        c.begin_drag(1, 1);
+        let _ = c.drag(3);
+        c.end_drag();
+        v.push(St { canvas: c, size: 0, drag: None, fail: None, depth: 0 });
+        if C::DIM3 {
+            let mut c = C::new(0);
+            c.begin_drag(1, 2);
+            let _ = c.drag(3);
+            c.end_drag();
+            v.push(St { canvas: c, size: 0, drag: None, fail: None, depth: 0 });
+            let mut c = C::new(0);
+            c.begin_drag(3, 2);
+            let _ = c.drag(0);
+            c.end_drag();
+            let _ = c.zoom(SCROLLS[2], None);
+            v.push(St { canvas: c, size: 0, drag: None, fail: None, depth: 0 });
+        }
+        v
     }
 
     fn actions(&self, s: &St<C>, out: &mut Vec<Act>) {
@@ -517,7 +540,7 @@ impl Check for C18 {
     }
     fn meta(&self, tier: Tier) -> Meta {
         Meta {
-            rule: "explicit-state breadth-first search (stateright) whose transition function calls the real Canvas2 / Canvas3 methods; actions: interact(cursor in {none, position x {no drag, pan, rotate}}, scroll), begin_drag, drag, end_drag, zoom(scroll, position or none), resize, interact(new image size, position x {pan, rotate}) i.e. a resize and a drag event in one call, over screen positions {corner, centre, off-canvas, (3,7)}, scrolls {0, +100, -100, 37.5}, image sizes {64x64, 100x50, 33x77}; state key = bit pattern of the view components + image size + shadow record of the active drag (view and position at its start) + depth; per-transition obligations: zoom about p keeps the model point under p (1e-4 relative), while a pan is active the point grabbed at its start stays under the cursor, rotation leaves centre and scale bit-identical with pitch in [0,pi] and |yaw| < 2pi, changed == false when the view is bit-identical, world_to_model == translate*rotate*scale of the components; every obligation is an `always` property; counts: states = unique states, transitions = generated states".into(),
+            rule: "explicit-state breadth-first search (stateright) whose transition function calls the real Canvas2 / Canvas3 methods; actions: interact(cursor in {none, position x {no drag, pan, rotate}}, scroll), begin_drag, drag, end_drag, zoom(scroll, position or none), resize, interact(new image size, position x {pan, rotate}) i.e. a resize and a drag event in one call, from 2 (2D) / 4 (3D) initial canvases (default; zoomed and panned; rotated; rotated the other way and zoomed), over screen positions {corner, centre, far off-canvas (-300,200), (3,7)}, scrolls {0, +100, -100, 37.5}, image sizes {64x64, 100x50, 33x77}; state key = bit pattern of the view components + image size + shadow record of the active drag (view and position at its start) + depth; per-transition obligations: zoom about p keeps the model point under p (1e-4 relative), while a pan is active the point grabbed at its start stays under the cursor, rotation leaves centre and scale bit-identical with pitch in [0,pi] and |yaw| < 2pi, changed == false when the view is bit-identical, world_to_model == translate*rotate*scale of the components; every obligation is an `always` property; counts: states = unique states, transitions = generated states".into(),
             bounds: match tier {
                 Tier::Quick => "depth 3 (3 positions, 3 scrolls)".into(),
                 Tier::Thorough => "depth 4 (4 positions, 4 scrolls) and depth 5 (3 positions, 3 scrolls)".into(),
